@@ -422,6 +422,53 @@ def build():
         return (not bad), bad[:5], sites
     plan.ground.append(("inventory-call-sites", inventory_sites))
 
+
+    def created_objects_referenced():
+        """every identifier returned by create_object_from_dict in model.py flows into a reference: {"identifier": id}, identifier=id,
+        set_reference(..., id), `.identifier = id`, a Reference(...) argument, or is returned to the caller"""
+        import ast as _ast
+        src = open(os.path.join(extract.REPO, "src", "numbers_parser", "model.py")).read()
+        tree = _ast.parse(src)
+        sites, bad = 0, []
+        for fn in _ast.walk(tree):
+            if not isinstance(fn, _ast.FunctionDef):
+                continue
+            for a in [n for n in _ast.walk(fn) if isinstance(n, _ast.Assign)]:
+                v = a.value
+                if not (isinstance(v, _ast.Call) and isinstance(v.func, _ast.Attribute) and v.func.attr == "create_object_from_dict"):
+                    continue
+                tgt = a.targets[0]
+                idname = tgt.elts[0].id if isinstance(tgt, _ast.Tuple) and isinstance(tgt.elts[0], _ast.Name) else None
+                if idname is None or idname == "_":
+                    continue
+                sites += 1
+                ok = False
+                for n in _ast.walk(fn):
+                    if getattr(n, "lineno", 0) <= a.lineno:
+                        continue
+                    if isinstance(n, _ast.Dict):
+                        for k_, v_ in zip(n.keys, n.values):
+                            if isinstance(k_, _ast.Constant) and k_.value == "identifier" and isinstance(v_, _ast.Name) and v_.id == idname:
+                                ok = True
+                    elif isinstance(n, _ast.keyword) and n.arg == "identifier" and isinstance(n.value, _ast.Name) and n.value.id == idname:
+                        ok = True
+                    elif isinstance(n, _ast.Call) and isinstance(n.func, _ast.Attribute) and n.func.attr == "set_reference" and \
+                            any(isinstance(x, _ast.Name) and x.id == idname for x in n.args):
+                        ok = True
+                    elif isinstance(n, _ast.Assign) and isinstance(n.targets[0], _ast.Attribute) and n.targets[0].attr == "identifier" and \
+                            isinstance(n.value, _ast.Name) and n.value.id == idname:
+                        ok = True
+                    elif isinstance(n, _ast.Return) and n.value is not None and any(isinstance(x, _ast.Name) and x.id == idname for x in _ast.walk(n.value)):
+                        ok = True
+                if not ok:
+                    bad.append(f"{fn.name}@L{a.lineno}: the object created here (id {idname}) is never made the target of a reference: it is an orphan and "
+                               "whatever was meant to point at it still points elsewhere")
+        if sites == 0:
+            return False, "no create_object_from_dict call found (anchor lost)", 0
+        return (not bad), bad[:5], sites
+    plan.ground.append(("created-objects-are-referenced", created_objects_referenced))
+    plan.created_objects_referenced = created_objects_referenced
+
     # ---- create_object_from_dict
     from pyvc.sym import SRef
 
